@@ -211,6 +211,7 @@ func cmdCheck(args []string) int {
 			fmt.Printf("hvc:   replay: %s\n", rr.Detail)
 		}
 	}
+	boundedCache := map[*checkUnit]*boundedResult{}
 	all := append([]*Obligation{}, obls...)
 	all = append(all, subsetViolations...)
 	for _, o := range all {
@@ -250,6 +251,18 @@ func cmdCheck(args []string) int {
 		var rr ReplayResult
 		if u != nil && u.fn != nil {
 			rr = v.replayObligation(o, u.root.top, u.fn, u.fc, filepath.Join(outDir, "replay"), o.Model)
+			if !rr.Reproduced {
+				// the direct model did not reproduce (quantified goal, or a havoced loop state):
+				// search executions with few loop iterations for a concrete failing input
+				K := 2
+				if *tier == "thorough" {
+					K = 4
+				}
+				if br, ok := v.boundedSearch(u, K, outDir, timeout, boundedCache); ok {
+					br.Detail = "found by bounded instance search (loops unrolled " + strconv.Itoa(K) + "x): " + br.Detail
+					rr = br
+				}
+			}
 		} else {
 			rr = v.replayObligation(o, nil, nil, nil, filepath.Join(outDir, "replay"), o.Model)
 		}
@@ -301,6 +314,56 @@ func cmdCheck(args []string) int {
 		return 1
 	}
 	return 0
+}
+
+type boundedResult struct {
+	rr ReplayResult
+	ok bool
+}
+
+// boundedSearch re-generates the function's obligations with every loop unrolled K times
+// (longer executions cut off). The resulting VCs are loop-free, so a `sat` answer is a
+// concrete input; it is replayed on the real code. Used only to obtain failing inputs.
+func (v *Verifier) boundedSearch(u *checkUnit, K int, outDir string, timeout int, cache map[*checkUnit]*boundedResult) (ReplayResult, bool) {
+	if c, ok := cache[u]; ok {
+		return c.rr, c.ok
+	}
+	res := &boundedResult{}
+	cache[u] = res
+	root, err := v.VerifyFunctionBounded(u.fn, u.fc, K)
+	if err != nil || root == nil {
+		return res.rr, false
+	}
+	var cand []*Obligation
+	for _, o := range root.obls {
+		switch o.Kind {
+		case "vacuity", "frame", "unwind", "requires":
+			continue
+		}
+		o.Name = o.Name + "~bounded"
+		cand = append(cand, o)
+	}
+	noRetry = true
+	bt := timeout
+	if bt > 15 {
+		bt = 15
+	}
+	dischargeAll(cand, filepath.Join(outDir, "smt-bounded"), bt, 16)
+	noRetry = false
+	for _, o := range cand {
+		if os.Getenv("HVC_DEBUG") != "" {
+			fmt.Printf("hvc: bounded %s: %s %s %.1fs\n", o.Name, o.Status, o.Solver, o.Time)
+		}
+		if o.Status != "sat" {
+			continue
+		}
+		rr := v.replayObligation(o, root.top, u.fn, u.fc, filepath.Join(outDir, "replay"), o.Model)
+		if rr.Reproduced {
+			res.rr, res.ok = rr, true
+			return rr, true
+		}
+	}
+	return res.rr, false
 }
 
 func round3(f float64) float64 { return float64(int(f*1000+0.5)) / 1000 }
